@@ -746,6 +746,8 @@ class FakeCF:
         self.cb = None
         self.sent = []
         self.removed = 0
+        from cflib.utils.callbacks import Caller
+        self.disconnected = Caller()      # TocFetcher.start() listens to it (abort on link loss); removed again when finished
 
     def get_protocol_version(self):
         return self.version
